@@ -879,6 +879,10 @@ def make_app(fn: str, args, kw=None) -> T:
     kw = dict(kw or {})
     if fn in ("numpy.square",) and len(args) == 1:
         return mul(args[0], args[0])
+    if fn in ("numpy.negative",) and len(args) == 1 and not kw:
+        return neg(args[0])
+    if fn in ("numpy.add", "numpy.subtract", "numpy.multiply") and len(args) == 2 and not kw:
+        return {"numpy.add": add, "numpy.subtract": lambda a, b: add(a, neg(b)), "numpy.multiply": mul}[fn](args[0], args[1])
     if fn in ("numpy.sqrt", "math.sqrt", "sqrt") and len(args) == 1:
         return sqrt(args[0])
     if fn == "math.isqrt" and len(args) == 1 and not kw:
